@@ -74,6 +74,7 @@ type Scenario struct {
 	Cap       int    `json:"cap"`        // TCP pipe capacity (0 = unbounded)
 	OneUnderlay bool `json:"one_underlay"` // all sessions multiplexed on one underlay (client multiplex factor 1000)
 	PumpGapMs int    `json:"pump_gap_ms"`  // > 0: a Flood op writes 1000 bytes every PumpGapMs ms (an active writer, peer reading)
+	WriteOnly bool   `json:"write_only"` // set-up without any client Read: the client only ever writes (over TCP its session stays ATTACHED)
 	Apis      bool   `json:"apis"`       // both ends through apis/client and apis/server (Start / Stop); CMux / SMux then mean Stop
 	Stall     bool   `json:"stall"`      // server app never reads & the client floods first (back-pressure)
 	FloodDLms int    `json:"flood_deadline_ms"` // write deadline set before every Write of a Flood op (0 = none)
@@ -443,12 +444,14 @@ func (rn *runner) run(sc *Scenario) {
 		if _, err := s.Read(buf); err != nil {
 			panic(fmt.Sprintf("greeting read: %v", err))
 		}
-		// server answers so that the client session becomes ESTABLISHED and its 10 s arming is consumed
-		if _, err := s.Write([]byte("welcome")); err != nil {
-			panic(fmt.Sprintf("welcome: %v", err))
-		}
-		if _, err := c.Read(buf); err != nil {
-			panic(fmt.Sprintf("welcome read: %v", err))
+		if !sc.WriteOnly {
+			// server answers so that the client session becomes ESTABLISHED and its 10 s arming is consumed
+			if _, err := s.Write([]byte("welcome")); err != nil {
+				panic(fmt.Sprintf("welcome: %v", err))
+			}
+			if _, err := c.Read(buf); err != nil {
+				panic(fmt.Sprintf("welcome read: %v", err))
+			}
 		}
 		w.cs = append(w.cs, c)
 		w.ss = append(w.ss, s)
@@ -1240,6 +1243,54 @@ func corpus(thorough bool) []*Scenario {
 		for _, idle := range []int{3000, 7000, 70000} {
 			out = append(out, &Scenario{Transport: tp, Kind: fmt.Sprintf("idle-%ds-then-close", idle/1000), NSess: 1, HorizonMs: idle + 6000, Ops: []Op{
 				{0, "s", "R", 0, "Read", 0, 0}, {0, "c", "C", idle, "Close", 0, 0}, {0, "c", "C", idle + 1500, "Close", 0, 0}}})
+		}
+	}
+	// upload only: the client writes, never reads, closes; the server reads everything and must then get EOF / an error
+	// in bounded time (the close request has to be sent from every state in which the peer may hold the session)
+	for _, tp := range []string{"tcp", "udp"} {
+		out = append(out, &Scenario{Transport: tp, Kind: "writeonly-close", NSess: 1, WriteOnly: true, HorizonMs: 8000, Ops: []Op{
+			{Sess: 0, End: "s", Role: "R", At: 0, Kind: "Drain"}, {Sess: 0, End: "c", Role: "W", At: 100, Kind: "Write", Arg: 4096},
+			{Sess: 0, End: "c", Role: "W", At: 200, Kind: "Write", Arg: 40000}, {Sess: 0, End: "c", Role: "C", At: 600, Kind: "Close"},
+			{Sess: 0, End: "c", Role: "C", At: 900, Kind: "Close"}}})
+	}
+	// aged mux: sessions kept open across minutes (housekeeping ticks of mux and underlays in between, client UDP
+	// scheduler disabled after 60 s and idle 2..3 min later), with and without traffic, then client Mux.Close /
+	// session Close / peer Close.  Everything still has to be released.
+	ages := []int{260}
+	if thorough {
+		ages = []int{70, 130, 260, 370}
+	}
+	for _, tp := range []string{"tcp", "udp"} {
+		for _, age := range ages {
+			for _, traffic := range []bool{false, true} {
+				for _, ev := range []string{"CMux", "cClose", "sClose"} {
+					if !thorough && (traffic || ev != "CMux") {
+						continue
+					}
+					sc := &Scenario{Transport: tp, NSess: 2, OneUnderlay: true, HorizonMs: age*1000 + 8000,
+						Kind: fmt.Sprintf("aged-%ds-%s-%s", age, map[bool]string{false: "idle", true: "traffic"}[traffic], strings.ToLower(ev))}
+					for i := 0; i < 2; i++ {
+						sc.Ops = append(sc.Ops, Op{Sess: i, End: "c", Role: "R", At: 0, Kind: "Read"})
+						if traffic {
+							sc.PumpGapMs = 5000
+							sc.Ops = append(sc.Ops, Op{Sess: i, End: "s", Role: "R", At: 0, Kind: "Drain"},
+								Op{Sess: i, End: "c", Role: "W", At: 1000 + 7*i, Kind: "Flood", Arg: 100000})
+						} else {
+							sc.Ops = append(sc.Ops, Op{Sess: i, End: "s", Role: "R", At: 0, Kind: "Read"})
+						}
+					}
+					at := age * 1000
+					switch ev {
+					case "CMux":
+						sc.Ops = append(sc.Ops, Op{End: "x", Role: "C", At: at, Kind: "CMux"}, Op{End: "x", Role: "C", At: at + 700, Kind: "CMux"})
+					case "cClose":
+						sc.Ops = append(sc.Ops, Op{Sess: 0, End: "c", Role: "C", At: at, Kind: "Close"}, Op{Sess: 1, End: "c", Role: "C", At: at + 300, Kind: "Close"})
+					default:
+						sc.Ops = append(sc.Ops, Op{Sess: 0, End: "s", Role: "C", At: at, Kind: "Close"}, Op{Sess: 1, End: "s", Role: "C", At: at + 300, Kind: "Close"})
+					}
+					out = append(out, sc)
+				}
+			}
 		}
 	}
 	// the public API: apis/client Stop and apis/server Stop with blocked calls at both ends, repeated Stop
